@@ -176,7 +176,8 @@ fn fb_words(maxlen: usize) -> Vec<Vec<u8>> {
 }
 
 // scripts with nth / len; tokens: F B L N<k>
-const SCRIPTS: &[&str] = &["L", "N0 L", "N1 F L", "F N1 B L", "B N0 L", "N2 L", "N5 L F", "F B L", "B B N1 L", "R0 L", "R1 B L", "F R1 F L", "R2 L F", "N1 R1 L", "R5 L B"];
+const SCRIPTS: &[&str] = &["L", "N0 L", "N1 F L", "F N1 B L", "B N0 L", "N2 L", "N5 L F", "F B L", "B B N1 L", "R0 L", "R1 B L", "F R1 F L", "R2 L F", "N1 R1 L", "R5 L B", "C T", "F C T", "B T C", "N1 C T", "R1 T C",
+    "B N0 F", "B N1 L", "B B N2 L", "B B N0 F L", "B B B N3 L", "F B N1 L", "N3 L", "B B N3 L", "B N2 F L"];
 
 fn run_deque<I, T, F>(mk: &dyn Fn() -> I, ident: F, exact: bool, out: &mut String)
 where
@@ -215,6 +216,9 @@ where
                     let n: usize = tok[1..].parse().unwrap();
                     write!(out, "{}", it.nth(n).map(|x| ident(&x)).unwrap_or(-1)).unwrap()
                 }
+                // count() and last() of a copy (provided methods an iterator may override)
+                b'C' => write!(out, "{}", it.clone().count()).unwrap(),
+                b'T' => write!(out, "{}", it.clone().last().map(|x| ident(&x)).unwrap_or(-1)).unwrap(),
                 b'R' => {
                     let n: usize = tok[1..].parse().unwrap();
                     write!(out, "{}", it.nth_back(n).map(|x| ident(&x)).unwrap_or(-1)).unwrap()
@@ -233,6 +237,20 @@ where
             }
         }
     }
+}
+
+// the answers of the cheap navigation accessors for one node (ids, -1 = None)
+fn hammer_answers(doc: &Document, nd: &Node) -> [i64; 8] {
+    [
+        oid(nd.first_element_child()),
+        oid(nd.last_element_child()),
+        oid(nd.next_sibling_element()),
+        oid(nd.prev_sibling_element()),
+        oid(nd.parent_element()),
+        oid(nd.first_child()),
+        oid(nd.children().nth(1)),
+        doc.root_element().id().get() as i64,
+    ]
 }
 
 fn ids<'a, 'i: 'a, I: Iterator<Item = Node<'a, 'i>>>(it: I) -> String {
@@ -262,6 +280,33 @@ fn dump_doc(idx: &str, flags: &str, input: &str, opt: ParsingOptions, doc: &Docu
             )
             .unwrap();
         }
+        // NK: the kind predicates, the id conversions and the storage accessors must agree with node_type() / id() / text() / tail()
+        // (counts disagreements; 0 for a consistent API)
+        let mut nk = 0usize;
+        for node in doc.descendants() {
+            let t = node.node_type();
+            let preds = [
+                (node.is_root(), t == NodeType::Root),
+                (node.is_element(), t == NodeType::Element),
+                (node.is_pi(), t == NodeType::PI),
+                (node.is_comment(), t == NodeType::Comment),
+                (node.is_text(), t == NodeType::Text),
+            ];
+            nk += preds.iter().filter(|(a, b)| a != b).count();
+            if node.id().get_usize() != node.id().get() as usize || NodeId::new(node.id().get()) != node.id() {
+                nk += 1;
+            }
+            if node.text_storage().map(|s| s.as_str()) != node.text() || node.tail_storage().map(|s| s.as_str()) != node.tail() {
+                nk += 1;
+            }
+            if node.document().get_node(node.id()).map(|x| x.node_type()) != Some(t) {
+                nk += 1;
+            }
+            if (node.pi().is_some()) != (t == NodeType::PI) {
+                nk += 1;
+            }
+        }
+        writeln!(o, "{} NK {}", idx, nk).unwrap();
     }
     if flags.contains('c') {
         for node in doc.descendants() {
@@ -851,6 +896,8 @@ fn main() {
                 };
                 let mut single = String::new();
                 dump_doc(&idx, &flags, &input, opt, &doc, &mut single);
+                let hammer_expected: Vec<[i64; 8]> = doc.descendants().map(|nd| hammer_answers(&doc, &nd)).collect();
+                let hammer_expected = &hammer_expected;
                 let mut same = 0usize;
                 let mut diff = 0usize;
                 std::thread::scope(|s| {
@@ -872,6 +919,25 @@ fn main() {
                                 if a == b {
                                     ok += 1
                                 } else {
+                                    bad += 1
+                                }
+                            }
+                            // hammer: the navigation / lookup answers for every node, asked in an order that differs per thread
+                            // (stride and offset from the thread number), many times over, against the answers of the single-threaded pass
+                            if hammer_expected.len() > 1 {
+                                let m = hammer_expected.len();
+                                let stride = [1usize, 3, 5, 7, 11, 13, 17, 19][t % 8];
+                                let rounds = std::cmp::max(1, 40000 / m);
+                                let mut k = (t * 7) % m;
+                                let mut wrong = 0usize;
+                                for _ in 0..rounds * m {
+                                    let nd = doc.get_node(NodeId::new(k as u32)).unwrap();
+                                    if hammer_answers(doc, &nd) != hammer_expected[k] {
+                                        wrong += 1;
+                                    }
+                                    k = (k + stride) % m;
+                                }
+                                if wrong > 0 {
                                     bad += 1
                                 }
                             }
